@@ -17,8 +17,6 @@ package main
 
 import (
 	"fmt"
-	"os"
-	"runtime/pprof"
 	"strconv"
 	"strings"
 	"sync/atomic"
@@ -130,11 +128,6 @@ func shrink(c engine.Case) []engine.Case {
 }
 
 func main() {
-	if p := os.Getenv("C15_CPUPROFILE"); p != "" {
-		f, _ := os.Create(p)
-		pprof.StartCPUProfile(f)
-		go func() { time.Sleep(40 * time.Second); pprof.StopCPUProfile(); f.Close() }()
-	}
 	engine.Main(&engine.Check{
 		ID:        "C15",
 		Title:     "All front ends are total, deterministic and report well-formed diagnostics",
